@@ -24,8 +24,8 @@ for l in open(os.path.join(V, "known_findings.jsonl")):
     out.append("| %s | `%s` | %s | %s | %s |" % (r["property"], r["key"], r["status"], r.get("commit") or "", esc(w)))
 out.append("")
 out.append("#### Seeded changes (from seeded/*/meta.json; written by independent sub-agents that saw only the property text)\n")
-out.append("| seeded change | property | what it needs to manifest | demo fails with / passes without, suite passes | caught by quick tier (signatures) |")
-out.append("|---|---|---|---|---|")
+out.append("| seeded change | property | what it needs to manifest | demo fails with / passes without, suite passes | caught by quick tier when confirmed (signatures) | re-validated against the latest /repo HEAD |")
+out.append("|---|---|---|---|---|---|")
 for p in sorted(glob.glob(os.path.join(V, "seeded", "*", "meta.json"))):
     m = json.load(open(p))
     c = m.get("confirmation", {})
@@ -39,7 +39,13 @@ for p in sorted(glob.glob(os.path.join(V, "seeded", "*", "meta.json"))):
         needs = needs[:300] + "…"
     ok = "yes" if c.get("confirmed") else "NO"
     caught = ("yes: " + ", ".join("`%s`" % s for s in sigs[:4])) if m.get("detected_by_quick_check") else "**no**"
-    out.append("| %s | %s | %s | %s | %s |" % (os.path.basename(os.path.dirname(p)), m.get("property"), esc(needs), ok, caught))
+    hr = m.get("head_recheck") or {}
+    rec = ""
+    if hr:
+        rec = "%s @%s" % (hr.get("status"), hr.get("head"))
+        if hr.get("status") == "caught" and hr.get("signatures"):
+            rec += ": " + ", ".join("`%s`" % x for x in hr["signatures"][:2])
+    out.append("| %s | %s | %s | %s | %s | %s |" % (os.path.basename(os.path.dirname(p)), m.get("property"), esc(needs), ok, caught, esc(rec)))
 out.append("")
 out.append("#### Registered checks\n")
 out.append("| property | package | jobs (quick counts) | level |")
